@@ -185,6 +185,11 @@ fn enum_decl(out: &mut String, j: usize, w: u32, discs: &[u128], exhaustive: boo
             _ => writeln!(out, "    V{k} = {d},"),
         };
     }
+    if exhaustive && style == 200 {
+        if let Some(hole) = (0..(1u128 << w)).find(|x| !discs.contains(x)) {
+            let _ = writeln!(out, "    #[cfg(any())]\n    Hole = {hole},");
+        }
+    }
     if conditional && discs.len() >= 2 {
         // ... and one pair with the inactive alternative declared last
         let _ = writeln!(out, "    #[cfg(any())]\n    Alt1 = {},", discs[1]);
@@ -234,7 +239,9 @@ pub fn layout_module(l: &Layout) -> String {
             Kind::EnumOpt { discs } => {
                 let d: Vec<u128> = discs.iter().map(|h| h.0).collect();
                 if f.claims_exhaustive {
-                    enum_decl(&mut o, j, w, &d, true, 0);
+                    // style 200 = additionally write the first missing value as a variant that is
+                    // configured away
+                    enum_decl(&mut o, j, w, &d, true, if f.variant_rot == 1 { 200 } else { 0 });
                 } else {
                     enum_decl(&mut o, j, w, &d, false, f.attr_order.wrapping_add(f.variant_rot as u8).wrapping_add(d.len() as u8));
                 }
